@@ -28,6 +28,7 @@ type c20Server struct {
 	content string // "v1" | "v2"
 	mode    string // up | refusing | http500 | silent
 	srv     *http.Server
+	reqs    int
 }
 
 // v1 is longer than v2 (an in-place overwrite without truncation leaves a tail)
@@ -54,6 +55,7 @@ func (s *c20Server) serve(ln net.Listener) {
 	mux.HandleFunc("/inc.yml", func(w http.ResponseWriter, r *http.Request) {
 		s.mu.Lock()
 		mode, content := s.mode, s.content
+		s.reqs++
 		s.mu.Unlock()
 		switch mode {
 		case "http500":
@@ -185,8 +187,12 @@ func c20Invocations(tier string) []c20Inv {
 	return base
 }
 
-func c20Unit(tier string) *Unit {
+func c20Unit(tier string, optional bool) *Unit {
 	name := "remote-cache-server-bfs"
+	if optional {
+		// the same space for an include marked optional: a declined download still ends the run
+		name = "optional-remote-include-bfs"
+	}
 	return &Unit{Name: name, Weight: 9, Custom: func(u *Unit, dir string, deadline time.Time) *vlab.UnitResult {
 		res := &vlab.UnitResult{SigCounts: map[string]int{}, Extra: map[string]any{}}
 		srv := &c20Server{content: "v1", mode: "up"}
@@ -197,6 +203,9 @@ func c20Unit(tier string) *Unit {
 		os.MkdirAll(dir, 0o755)
 		url := "http://" + srv.addr + "/inc.yml"
 		rootTF := "version: '3'\nincludes:\n  rem: " + url + "\ntasks:\n  local:\n    cmds: ['true']\n"
+		if optional {
+			rootTF = "version: '3'\nincludes:\n  rem:\n    taskfile: " + url + "\n    optional: true\ntasks:\n  local:\n    cmds: ['true']\n"
+		}
 		os.WriteFile(filepath.Join(dir, "Taskfile.yml"), []byte(rootTF), 0o644)
 		modes := []string{"up", "refusing", "http500"}
 		if tier == "thorough" {
@@ -236,6 +245,9 @@ func c20Unit(tier string) *Unit {
 		maxDepth := 5
 		if tier == "thorough" {
 			maxDepth = 9
+		}
+		if optional {
+			maxDepth -= 2
 		}
 		for ; depth < maxDepth && len(frontier) > 0; depth++ {
 			var next []*c20State
@@ -290,6 +302,9 @@ func c20Unit(tier string) *Unit {
 						args = append(args, inv.flags...)
 						args = append(args, "rem:show")
 						cver, cfresh, cex := cacheInfo(dir)
+						srv.mu.Lock()
+						reqs0 := srv.reqs
+						srv.mu.Unlock()
 						so, se, rc := RunCLI(dir, []string{"TASK_X_REMOTE_TASKFILES=1"}, "", args...)
 						ran := ""
 						has1 := strings.Contains(so, "-v1")
@@ -310,8 +325,13 @@ func c20Unit(tier string) *Unit {
 							return
 						}
 						if !inv.insecure {
-							if rc != 105 || ran != "" {
-								add(vlab.V("C20", "plain_http_not_refused", fmt.Sprintf("got%d", rc), "plain http without --insecure must end with 105 and run nothing: "+ctx), hist)
+							srv.mu.Lock()
+							nreq := srv.reqs - reqs0
+							srv.mu.Unlock()
+							// an optional include swallows the refusal (the include is left out and the
+							// missing task is reported); refused still means: no request, nothing runs
+							if (rc != 105 && !optional) || rc == 0 || ran != "" || nreq != 0 {
+								add(vlab.V("C20", "plain_http_not_refused", fmt.Sprintf("got%d", rc), fmt.Sprintf("plain http without --insecure must be refused (status 105, no request, nothing runs; %d requests were made): %s", nreq, ctx)), hist)
 							}
 							return
 						}
@@ -330,6 +350,11 @@ func c20Unit(tier string) *Unit {
 						}
 						if rc == 104 && !(ns.mode == "up" && !inv.yes && !inv.offline && ns.content != ns.approved) {
 							add(vlab.V("C20", "spurious_not_trusted", tag, "104 although nothing new needed approval: "+ctx), hist)
+						}
+						// a download of content that is not the approved one, with nobody to approve it,
+						// ends the invocation with 104 (without --expiry every online run downloads)
+						if ns.mode == "up" && !inv.yes && !inv.offline && ns.content != ns.approved && len(inv.flags) == 0 && rc != 104 {
+							add(vlab.V("C20", "declined_download_not_104", fmt.Sprintf("%s:got%d", inv.name, rc), "new or changed remote content was downloaded without approval; the invocation must end with 104: "+ctx), hist)
 						}
 						// availability: an approved cached copy keeps the task runnable offline / when the server fails
 						haveApproved := cex && cver == ns.approved && ns.approved != ""
@@ -401,4 +426,4 @@ func c20Unit(tier string) *Unit {
 	}}
 }
 
-func c20Units(tier string) []*Unit { return []*Unit{c20Unit(tier)} }
+func c20Units(tier string) []*Unit { return []*Unit{c20Unit(tier, false), c20Unit(tier, true)} }
